@@ -34,7 +34,8 @@ LEVEL_TEXT = ("Every member of the bounded family of observations is executed on
               "Checked per observation: the multiset of executed assignments equals the reference space (dask: plus at most "
               "one metadata run of an element of the space); the result holds exactly one entry per element; selecting an "
               "entry by its coordinate labels (value coordinate, <name>_id coordinate of vector parameters, or run index) "
-              "and decoding its data returns exactly that element; labels attached to a run index equal the values used.")
+              "and decoding its data returns exactly that element; labels attached to a run index equal the values used."
+              " Value lists are also written as text ('[..]', '(..)', 'range(..)'), as tuples and as lists of text elements; every plain case of up to 3 parameters is additionally executed through the legacy entry point pyxel.observation_mode (exec=legacy).")
 LEVEL_NOTE = ("Bounded: <=2 parameters (quick) / <=4 (thorough, size 4 with <=2 disabled), lists of <=3 distinct numeric "
               "values, vectors of length 2-3, tables of <=3 rows, one readout step. Probe models stand in for real models "
               "(the sweep machinery does not look inside a model). Trusted: the reference definitions of the three modes "
